@@ -132,6 +132,8 @@ def judge(chk, run, it, cxx, std, impl, stats):
             exp = expected_char(ev, n)
             stats['kinds'][ev.kind] = stats['kinds'].get(ev.kind, 0) + 1
             stats['outcomes'][got] = stats['outcomes'].get(got, 0) + 1
+            if mrun[j] == 'U':
+                stats['model_undefined'] += 1
             if got == exp and exp == 'A' and ev.needs_end <= c10gen.INF - 1 and n + 1 > ev.needs_end - 1:
                 stats['boundary'] += 1
             bad = None
@@ -157,13 +159,15 @@ def judge(chk, run, it, cxx, std, impl, stats):
                             'image': wire.hexs(it.img)})
             cause = 'none'
             if bad:
-                if past:
+                if ev.huge:
+                    cause = 'pointer-range-overflow'
+                elif past:
                     cause = 'view-begins-past-end'
                 elif ev.kind in ('data.assign_range',) and got == 'F':
                     cause = 'write-before-check'
                 else:
                     cause = 'unknown'
-            key = (j, bad)
+            key = (j, bad, cause)
             if bad and key not in reported and bad != 'bad-path':
                 reported.add(key)
                 stats['violations_by_cause'][cause] = stats['violations_by_cause'].get(cause, 0) + 1
@@ -184,7 +188,7 @@ def judge(chk, run, it, cxx, std, impl, stats):
                     'case': case})
             elif bad == 'bad-path':
                 chk.report_unproved('driver-path', {'chain': ev.cpp_path, 'message': it.m['name']})
-            if got != mrun[j] and ('model', j) not in reported:
+            if got != mrun[j] and mrun[j] != 'U' and ('model', j) not in reported:
                 reported.add(('model', j))
                 stats['model_mismatch'] += 1
                 chk.report_unproved('impl≠model (Rt.Guards does not describe what the accessor does)', {
@@ -201,7 +205,7 @@ def judge(chk, run, it, cxx, std, impl, stats):
 def run_schemas(chk, nschemas, configs, values_per_msg, muts_per_image, max_image=220, max_chains=260):
     run = W.WireRun(chk, nschemas, configs, values_per_msg=values_per_msg, seed_salt=10, max_depth=3)
     stats = {'calls': 0, 'kinds': {}, 'outcomes': {}, 'boundary': 0, 'ok_beyond_needs': 0, 'model_mismatch': 0,
-             'ok_beyond_needs_kinds': {}, 'ok_beyond_needs_samples': [], 'violations_by_cause': {},
+             'ok_beyond_needs_kinds': {}, 'ok_beyond_needs_samples': [], 'violations_by_cause': {}, 'model_undefined': 0,
              'images': 0, 'mutated_images': 0, 'chains': 0, 'truncation_points': 0}
     try:
         if not run.prepare():
